@@ -610,11 +610,13 @@ func main() {
 	}
 	checkTrieCases(f, res, drv, cs, "large-batch")
 
-	checkTempTries(f, res, r)
+	checkTempTries(f, res, drv, r)
 
 	// 5. state-diff sequences through core/state and core/deprecatedstate
 	legacyPurgeVariant = legacyPurges()
 	res.Note("deprecatedstate purges emptied system contracts in Update: %v (selects the Lean model variant)", legacyPurgeVariant)
+	oldFixedVariant = [2]bool{oldRootFixed(true), oldRootFixed(false)}
+	res.Note("Update accepts the stored old root at the commitment-formula switch: core/state %v, core/deprecatedstate %v (selects the Lean model variant)", oldFixedVariant[0], oldFixedVariant[1])
 	checkStateCases(f, res, drv, directedStateCases(), "state-directed")
 	checkStateCases(f, res, drv, versionSwitchCases(), "state-version-switch")
 	checkInvalidDiffs(f, res, drv, genInvalidCases(r.Fork(5_000_000), f.Scale(60, 1200)))
@@ -654,12 +656,13 @@ func runReplay(f lib.Flags, res *lib.Result, drv *lib.Driver) {
 			return
 		}
 		legacyPurgeVariant = legacyPurges()
+		oldFixedVariant = [2]bool{oldRootFixed(true), oldRootFixed(false)}
 		checkStateCases(f, res, drv, []*StateCase{&sc}, "replay")
 	case "primitive":
 		checkPrimitives(f, res, lib.NewRNG(f.Seed))
 	case "temptrie":
 		var n int
 		_ = json.Unmarshal(body.State, &n)
-		checkTempTrieN(res, n)
+		checkTempTrieN(res, drv, n)
 	}
 }
